@@ -19,21 +19,22 @@ theorem selectTail_iff {q : Select} {fields : List Field} {filtered rows : List 
         aggregateRows q.list q.groupBy projected = .ok agg ∧
         resolveSortKeys q.orderBy (sortFields q.list hdr) = .ok keys ∧
         (∀ a ∈ agg, ∀ b ∈ agg, KeyComparable keys a b) ∧
-        rows = cut q.lim (sortRows keys agg) := by
+        rows = cut q.lim (sortRows keys agg) ∧ Spec.boundsOK q.lim = true := by
   unfold selectTail
   constructor
   · intro h
     obtain ⟨⟨projected, hdr'⟩, hproj, h⟩ := bind_eq_ok.1 h
     obtain ⟨agg, hagg, h⟩ := bind_eq_ok.1 h
     obtain ⟨sorted, hsort, h⟩ := bind_eq_ok.1 h
+    obtain ⟨cutted, hcut, h⟩ := bind_eq_ok.1 h
     simp only [pure_eq_ok, X.ok.injEq, Prod.mk.injEq] at h
     obtain ⟨hrows, rfl⟩ := h
     obtain ⟨keys, hkeys, hcomp, rfl⟩ := sortColumns_ok hsort
-    exact ⟨projected, agg, keys, hproj, hagg, hkeys, hcomp, hrows.symm⟩
-  · rintro ⟨projected, agg, keys, hproj, hagg, hkeys, hcomp, rfl⟩
+    obtain ⟨hb, rfl⟩ := cutRows_ok_iff.1 hcut
+    exact ⟨projected, agg, keys, hproj, hagg, hkeys, hcomp, hrows.symm, hb⟩
+  · rintro ⟨projected, agg, keys, hproj, hagg, hkeys, hcomp, rfl, hb⟩
     have hsort := sortColumns_ok_iff.2 ⟨keys, hkeys, hcomp, rfl⟩
-    simp only [hproj, hagg, hsort, bind_ok, pure_eq_ok]
-    rfl
+    simp only [hproj, hagg, hsort, cutRows_of_boundsOK hb, bind_ok, pure_eq_ok]
 
 /-- **`evaluateSelect` is FROM → WHERE → select list → GROUP BY / aggregates → ORDER BY →
 OFFSET / LIMIT**, as an equivalence: it answers `(rows, hdr)` exactly when every stage succeeds
@@ -48,7 +49,7 @@ theorem evaluateSelect_iff {fetch : Bytes → Option Table} {q : Select} {tr : T
         aggregateRows q.list q.groupBy projected = .ok agg ∧
         resolveSortKeys q.orderBy (sortFields q.list hdr) = .ok keys ∧
         (∀ a ∈ agg, ∀ b ∈ agg, KeyComparable keys a b) ∧
-        rows = cut q.lim (sortRows keys agg) := by
+        rows = cut q.lim (sortRows keys agg) ∧ Spec.boundsOK q.lim = true := by
   rw [evaluateSelect_from fetch q tr hfrom]
   constructor
   · intro h
@@ -113,33 +114,33 @@ theorem single_table_iff {fetch : Bytes → Option Table} {q : Select} {t : Tabl
         projectColumns q.list (judgeFields fetch q) [] = .ok ([], hdr) ∧
         Spec.sortKeys q hdr = some keys ∧
         (∀ a ∈ want, ∀ b ∈ want, KeyComparable keys a b) ∧
-        rows = cut q.lim (sortRows keys want) := by
+        rows = cut q.lim (sortRows keys want) ∧ Spec.boundsOK q.lim = true := by
   rw [evaluateSelect_iff hfrom]
   constructor
-  · rintro ⟨src, fields, filtered, projected, agg, keys, hj, hwh, hproj, hag, hkeys, hcomp, rfl⟩
+  · rintro ⟨src, fields, filtered, projected, agg, keys, hj, hwh, hproj, hag, hkeys, hcomp, rfl, hb⟩
     rw [aggregateRows_noAggr _ hagg hgb] at hag
     cases hag
     have hfr : Spec.fromRows fetch (.table t) = some (src, fields) := by
       rw [fromRows_table]; exact fieldsOf_iff_fetchTable.2 hj
     have hsw := whereX_ok_spec (by unfold whereIsBoolean at hw; exact hw) hwh
-    have hst := (projectColumns_iff_specTail hagg hgb).1 ⟨hdr, hproj⟩
-    refine ⟨projected, keys, ?_, ?_, resolveSortKeys_iff_spec.1 hkeys, hcomp, rfl⟩
+    have hst := (projectColumns_iff_specTail (NoPanicP.projectColumns_ok_ne_nil hproj) hagg hgb).1 ⟨hdr, hproj⟩
+    refine ⟨projected, keys, ?_, ?_, resolveSortKeys_iff_spec.1 hkeys, hcomp, rfl, hb⟩
     · rw [meaning_of hfrom hfr, hsw]; exact hst
     · rw [judgeFields_of hfrom hfr]; exact projectColumns_header hproj
-  · rintro ⟨want, keys, hm, hh, hk, hcomp, rfl⟩
+  · rintro ⟨want, keys, hm, hh, hk, hcomp, rfl, hb⟩
     obtain ⟨tr, src, fields, hf, hfr⟩ := meaning_some_from hm
     rw [hfrom] at hf
     cases hf
     rw [meaning_of hfrom hfr] at hm
     obtain ⟨filtered, hsw, hst⟩ := option_bind_some.1 hm
-    obtain ⟨hdr', hproj⟩ := (projectColumns_iff_specTail hagg hgb).2 hst
+    obtain ⟨hdr', hproj⟩ := (projectColumns_iff_specTail (NoPanicP.projectColumns_ok_ne_nil hh) hagg hgb).2 hst
     rw [judgeFields_of hfrom hfr, projectColumns_header hproj] at hh
     simp only [X.ok.injEq, Prod.mk.injEq, true_and] at hh
     subst hh
     rw [fromRows_table] at hfr
     exact ⟨src, fields, filtered, want, want, keys, fieldsOf_iff_fetchTable.1 hfr,
       specWhere_whereX hsw, hproj, aggregateRows_noAggr _ hagg hgb,
-      resolveSortKeys_iff_spec.2 hk, hcomp, rfl⟩
+      resolveSortKeys_iff_spec.2 hk, hcomp, rfl, hb⟩
 
 /-- the header of a successful single-table SELECT is the header the judge computes -/
 theorem judgeHeader_of {fetch : Bytes → Option Table} {q : Select} {hdr : List Field}
@@ -147,9 +148,11 @@ theorem judgeHeader_of {fetch : Bytes → Option Table} {q : Select} {hdr : List
     judgeHeader fetch q = hdr := by
   unfold judgeHeader; rw [h]
 
-/-- the converse without the hypothesis on WHERE: a query that has a meaning is answered -/
+/-- the converse without the hypothesis on WHERE: a query that has a meaning is answered (a select
+list that is not empty, no negative bound: what the executor takes for granted) -/
 theorem meaningful_single_table_answered {fetch : Bytes → Option Table} {q : Select} {t : TableName}
     (hfrom : q.from_ = some (.table t)) (hagg : hasAggr q.list = false) (hgb : q.groupBy = [])
+    (hne : q.list ≠ []) (hb : Spec.boundsOK q.lim = true)
     {want : List Row} {keys : List (Nat × Bool)}
     (hm : Spec.meaning fetch q = some want)
     (hk : Spec.sortKeys q (judgeHeader fetch q) = some keys)
@@ -162,7 +165,7 @@ theorem meaningful_single_table_answered {fetch : Bytes → Option Table} {q : S
   have hm' := hm
   rw [meaning_of hfrom hfr] at hm'
   obtain ⟨filtered, hsw, hst⟩ := option_bind_some.1 hm'
-  obtain ⟨hdr', hproj⟩ := (projectColumns_iff_specTail hagg hgb).2 hst
+  obtain ⟨hdr', hproj⟩ := (projectColumns_iff_specTail hne hagg hgb).2 hst
   have hh : projectColumns q.list (judgeFields fetch q) [] = .ok ([], hdr') := by
     rw [judgeFields_of hfrom hfr]; exact projectColumns_header hproj
   have hj : judgeHeader fetch q = hdr' := judgeHeader_of hh
@@ -172,6 +175,6 @@ theorem meaningful_single_table_answered {fetch : Bytes → Option Table} {q : S
   rw [fromRows_table] at hfr
   exact ⟨src, fields, filtered, want, want, keys, fieldsOf_iff_fetchTable.1 hfr,
     specWhere_whereX hsw, hproj, aggregateRows_noAggr _ hagg hgb,
-    resolveSortKeys_iff_spec.2 hk, hcomp, rfl⟩
+    resolveSortKeys_iff_spec.2 hk, hcomp, rfl, hb⟩
 
 end Mkdb.Exec.MeaningP
